@@ -23,7 +23,31 @@ const (
 	ScriptTrap     = 4 // own WAT: asks (1,1); execute traps -> FAILURE
 	ScriptAskNone  = 5 // testdata.Wasm3: asks nothing -> request rejected
 	ScriptBadPrep  = 6 // testdata.Wasm2: set_return_data in prepare -> request rejected
+	ScriptEmptyRet = 7 // own WAT: asks (1,1); execute sets a ZERO-LENGTH return value -> SUCCESS with an empty result
 )
+
+const watEmptyReturn = `
+(module
+	(type $t0 (func))
+	(type $t1 (func (param i64 i64 i64 i64)))
+	(type $t2 (func (param i64 i64)))
+	(import "env" "ask_external_data" (func $ask_external_data (type $t1)))
+	(import "env" "set_return_data" (func $set_return_data (type $t2)))
+	(func $prepare (export "prepare") (type $t0)
+	  i64.const 1
+	  i64.const 1
+	  i32.const 1024
+	  i64.extend_i32_u
+	  i64.const 1
+	  call $ask_external_data)
+	(func $execute (export "execute") (type $t0)
+	  i32.const 1024
+	  i64.extend_i32_u
+	  i64.const 0
+	  call $set_return_data)
+	(memory $memory (export "memory") 17)
+	(data (i32.const 1024) "x"))
+`
 
 const watNoReturn = `
 (module
@@ -88,7 +112,7 @@ func OracleGenesis(w *World, gs band.GenesisState, ds []DataSourceSpec, params f
 		og.DataSources = append(og.DataSources, oracletypes.NewDataSource(
 			owner, fmt.Sprintf("ds%d", i+1), "", hash, d.Fee, d.Treasury))
 	}
-	scripts := [][]byte{testdata.Wasm1, testdata.Wasm4, wat(watNoReturn), wat(watTrap), testdata.Wasm3, testdata.Wasm2}
+	scripts := [][]byte{testdata.Wasm1, testdata.Wasm4, wat(watNoReturn), wat(watTrap), testdata.Wasm3, testdata.Wasm2, wat(watEmptyReturn)}
 	for i, s := range scripts {
 		hash := fc.AddFile(testdata.Compile(s))
 		og.OracleScripts = append(og.OracleScripts, oracletypes.NewOracleScript(
